@@ -88,6 +88,10 @@ type Plan struct {
 	PlainReconfigured bool `json:"plain_reconfigured,omitempty"`
 	// ClientALPN is Transport.TLSConfig.NextProtos.
 	ClientALPN []string `json:"client_alpn,omitempty"`
+	// StaticECH: every node holds the same ECH key; the client is configured
+	// with that config list itself (Transport.TLSConfig) and with
+	// Dialer.RequireECH - a deployment that does not rely on DNS for the list.
+	StaticECH bool `json:"static_ech,omitempty"`
 	// Direct: call Transport.RoundTrip instead of http.Client.Do.
 	Direct       bool           `json:"direct,omitempty"`
 	Link         simnet.LinkCfg `json:"link"`
